@@ -26,6 +26,14 @@
 namespace bloc
 {
 
+static Integer toInteger(Numeric d)
+{
+  /* it must fit in an integer: NaN fails the test */
+  if (!(d >= Numeric(INT64_MIN) && d < -Numeric(INT64_MIN)))
+    throw RuntimeError(EXC_RT_OUT_OF_RANGE);
+  return Integer(d);
+}
+
 Value& SUBRAWExpression::value(Context & ctx) const
 {
   Value& val = _args[0]->value(ctx);
@@ -53,7 +61,7 @@ Value& SUBRAWExpression::value(Context & ctx) const
     case Type::NUMERIC:
       if (a1.isNull())
         return val;
-      a = Integer(*a1.numeric());
+      a = toInteger(*a1.numeric());
       break;
     default:
       throw RuntimeError(EXC_RT_FUNC_ARG_TYPE_S, KEYWORDS[oper]);
@@ -78,7 +86,7 @@ Value& SUBRAWExpression::value(Context & ctx) const
       case Type::NUMERIC:
         if (a2.isNull())
           return val;
-        b = Integer(*a2.numeric());
+        b = toInteger(*a2.numeric());
         break;
       default:
         throw RuntimeError(EXC_RT_FUNC_ARG_TYPE_S, KEYWORDS[oper]);
@@ -87,7 +95,8 @@ Value& SUBRAWExpression::value(Context & ctx) const
     if (c == 0)
       return val;
     a = (a < 0 ? a + c : a);
-    b = std::max<int64_t>(std::min(b, c - a), 0L);
+    /* nothing before the start */
+    b = (a < 0 ? 0 : std::max<int64_t>(std::min(b, c - a), 0L));
     if (a >= 0 && b > 0)
     {
       if (val.lvalue())
